@@ -102,6 +102,17 @@ class Run:
                 new.append(v)
         for g, vs in sorted(hits.items()):
             print("KNOWN-FINDING: property=%s group=%s instances=%d e.g. %s" % (prop, g, len(vs), vs[0]["id"]))
+        if os.environ.get("VERIF_TRIAGE"):
+            # maintainer mode (bin/triage): dump every unlisted violation with its input; never used by a check
+            td = os.path.join(C.WORK, "triage")
+            os.makedirs(td, exist_ok=True)
+            with open(os.path.join(td, "%s.ndjson" % prop), "w") as f:
+                for v in new:
+                    k = v.get("key") or C.viol_key(v)
+                    inp = inputs.get(v["id"], {})
+                    f.write(json.dumps(dict(key=k, v=v, text=inp.get("text"))) + "\n")
+            print("TRIAGE property=%s unlisted=%d known=%d" % (prop, len(new), sum(len(x) for x in hits.values())))
+            new = []
         replays = []
         seen = set()
         for v in new:
@@ -146,72 +157,118 @@ FIX_W_QUICK = "0,40,80,120"
 FIX_W_THORO = "0,1,20,40,60,80,100,120,10000"
 
 
-def fmt_family(ctx, rels, parts, seed_tags="", trivia_tags="", passes=False, gap_quick="1/16", gap_thoro="1/2",
-               pair_quick="0/1", pair_thoro="1/400", tabs_quick="2", tabs_thoro="2,3,4", fix_max_quick=30000,
-               extra_record=None):
+LIST_INSTANCES = ["array", "args", "block", "paren", "dict"]
+
+
+def list_models(ctx, common, tabs):
+    """L2: exhaustive design check of the ListStylist model at one or more call sites (every grammatical child
+    sequence up to the bound x every width), and its behaviours as inputs for the real code (U-beh)."""
+    import beh
+    q = ctx.quick
+    insts = LIST_INSTANCES if not q else [LIST_INSTANCES[(ctx.seed + k) % len(LIST_INSTANCES)] for k in (0, 1)]
+    maxlen = 5 if q else 6
+    allb = []
+    total_drift = dict(comparisons=0, drift=0, env_gap=0, samples=[])
+    for inst in insts:
+        wd = os.path.join(ctx.work, "mc-list-" + inst)
+        t = time.time()
+        r, behs = beh.list_behaviours(wd, inst, maxlen, maxw=24, unit=2)
+        C.log("design check ListMC[%s] len<=%d: ok=%s states=%d behaviours=%d %.1fs" % (
+            inst, maxlen, r["ok"], r["states"], len(behs), time.time() - t))
+        ctx.design.append(dict(spec="ListMC[%s]" % inst, ok=r["ok"], states=r["states"], transitions=r["transitions"],
+                               behaviours=len(behs)))
+        ctx.states += r["states"]
+        ctx.transitions += r["transitions"]
+        if not r["ok"]:
+            with open(os.path.join(ctx.work, "mc-list-%s.log" % inst), "w") as f:
+                f.write(r["out"])
+            raise C.ToolError("design check ListMC[%s] failed (model-level; not a property verdict)\n%s" % (inst, r["out"][-2500:]))
+        d, _ = beh.drift(wd, behs, 24, 2)
+        for k in ("comparisons", "drift", "env_gap"):
+            total_drift[k] += d[k]
+        total_drift["samples"] += d["samples"][:2]
+        allb += behs
+    ctx.extra["model_drift"] = total_drift
+    if total_drift["drift"]:
+        C.log("MODEL DRIFT: %d of %d model-predicted texts differ from the real output (not a verdict)" % (
+            total_drift["drift"], total_drift["comparisons"]))
+    inp = os.path.join(ctx.work, "beh-all.ndjson")
+    with open(inp, "w") as f:
+        for b in allb:
+            f.write(json.dumps({"id": b["id"], "text": b["text"]}) + "\n")
+    ctx.record("beh", universe="file", input=inp, widths="all", tabs=tabs, **common)
+
+
+def fmt_family(ctx, rels, parts, seed_tags="", trivia_tags="", passes=False, gap_quick="1/16",
+               pair_fixed="1/400", pair_quick="1/10", tabs="2", fix_max_quick=30000, models=True, nl_fixed="1/40",
+               nl_quick="1/6"):
+    """The universes of the relation family.  Everything `thorough` explores is a fixed finite universe (all single
+    placements, a seed-independent slice of the pair placements, a seed-independent slice of U-nl); `quick` explores
+    a seed-selected part of the same universe."""
     q = ctx.quick
     common = dict(parts=parts, passes="true" if passes else "false")
-    ctx.record("fix", universe="fix", widths=FIX_W_QUICK if q else FIX_W_THORO,
-               tabs=tabs_quick if q else tabs_thoro, max_bytes=fix_max_quick if q else (1 << 30), **common)
-    gap = dict(universe="gap", widths="all", single=gap_quick if q else gap_thoro,
-               pair=pair_quick if q else pair_thoro, tabs=tabs_quick if q else tabs_thoro, **common)
+    if models:
+        list_models(ctx, common, tabs)
+    ctx.record("fix", universe="fix+chunk", widths=FIX_W_QUICK if q else FIX_W_THORO, tabs=tabs,
+               max_bytes=fix_max_quick if q else (1 << 30), chunk_frac="1/8" if q else "1/1", **common)
+    gap = dict(universe="gap", widths="all", single=gap_quick if q else "1/1", pair_fixed=pair_fixed,
+               pair=pair_quick if q else "1/1", tabs=tabs, **common)
     if seed_tags:
         gap["seed_tags"] = seed_tags
     if trivia_tags:
         gap["trivia_tags"] = trivia_tags
     ctx.record("gap", **gap)
-    if extra_record:
-        extra_record(ctx, common)
+    nl = dict(universe="nl", widths="0,20,80", nl_fixed=nl_fixed, nl_sample=nl_quick if q else "1/1", tabs="2", **common)
+    if seed_tags:
+        nl["seed_tags"] = seed_tags
+    ctx.record("nl", **nl)
     ctx.validate("TraceFmt", rels)
 
 
 def c01(ctx):
-    fmt_family(ctx, ["R01"], "tree")
+    fmt_family(ctx, ["R01"], "tree", gap_quick="1/12", pair_fixed="1/600", tabs="2,4")
 
 
 def c03(ctx):
-    fmt_family(ctx, ["R03"], "none", passes=True, gap_quick="1/4", gap_thoro="1/1", pair_quick="1/2000",
-               pair_thoro="1/100", tabs_quick="2,4")
+    fmt_family(ctx, ["R03"], "none", passes=True, gap_quick="1/6", pair_fixed="1/200", tabs="2,4")
 
 
 def c04(ctx):
-    fmt_family(ctx, ["R04"], "fmt", gap_quick="1/4", gap_thoro="1/1", pair_quick="1/2000", pair_thoro="1/100",
-               tabs_quick="2,4")
+    fmt_family(ctx, ["R04"], "fmt", gap_quick="1/4", pair_fixed="1/100", tabs="2,4")
 
 
 def c06(ctx):
-    fmt_family(ctx, ["R06"], "flat", trivia_tags="cmt,off", gap_quick="1/6", gap_thoro="1/1", pair_quick="1/4000")
+    fmt_family(ctx, ["R06"], "flat", trivia_tags="cmt,off", gap_quick="1/6", pair_fixed="1/200")
 
 
 def c08(ctx):
-    fmt_family(ctx, ["R08"], "flat", seed_tags="markup,prose,list-item,comment", gap_quick="1/4", gap_thoro="1/1")
+    fmt_family(ctx, ["R08"], "flat", models=False, seed_tags="markup,prose,list-item,comment,degenerate", gap_quick="1/4",
+               pair_fixed="1/200")
 
 
 def c09(ctx):
-    fmt_family(ctx, ["R09"], "flat", seed_tags="math", gap_quick="1/3", gap_thoro="1/1", pair_thoro="1/50")
+    fmt_family(ctx, ["R09"], "flat", models=False, seed_tags="math", gap_quick="1/3", pair_fixed="1/50")
 
 
 def c10(ctx):
-    fmt_family(ctx, ["R10"], "flat", seed_tags="lit,markup,call,comment", gap_quick="1/6", gap_thoro="1/1")
+    fmt_family(ctx, ["R10"], "flat", models=False, seed_tags="lit,markup,call,comment", gap_quick="1/6", pair_fixed="1/400")
 
 
 def c11(ctx):
-    fmt_family(ctx, ["R11"], "lines", gap_quick="1/8", gap_thoro="1/1")
+    fmt_family(ctx, ["R11"], "lines", gap_quick="1/8", pair_fixed="1/400")
 
 
 def c12(ctx):
-    fmt_family(ctx, ["R12a", "R12b"], "lines,unit", gap_quick="1/12", gap_thoro="1/2", tabs_quick="2,3,5",
-               tabs_thoro="1,2,3,4,5,7,8")
+    fmt_family(ctx, ["R12a", "R12b"], "lines,unit", gap_quick="1/12", pair_fixed="1/800", tabs="2,3,5,8")
 
 
 def c19(ctx):
-    fmt_family(ctx, ["R19"], "imp", seed_tags="import,markup", gap_quick="1/2", gap_thoro="1/1", pair_quick="1/200",
-               pair_thoro="1/20", tabs_quick="2")
+    fmt_family(ctx, ["R19"], "imp", models=False, seed_tags="import,markup", gap_quick="1/2", pair_fixed="1/20", pair_quick="1/10")
 
 
 def c07(ctx):
-    fmt_family(ctx, ["R07"], "off", trivia_tags="off", gap_quick="1/1", gap_thoro="1/1", pair_quick="1/400",
-               pair_thoro="1/50", tabs_quick="2,4")
+    fmt_family(ctx, ["R07"], "off", models=False, trivia_tags="off", gap_quick="1/1", pair_fixed="1/50", pair_quick="1/8",
+               tabs="2,4")
 
 
 # ---------------------------------------------------------------------------------------
